@@ -202,33 +202,39 @@ def run(tier):
         if path:
             q["path"] = path
         reqs.append(q)
-    res = vlib.run_harness("run", reqs, timeout_per_req=30, chunk=40)
-    records, meta = [], {}
-    for req, out, crash in res:
-        key = vlib.canon_key(req["src"])
-        case = {"src": req["src"], "name": req["id"]}
-        if crash or out is None:
-            kind = "timeout" if crash and crash.get("timeout") else "abort"
-            for be in ("vm", "wasm"):
-                records.append({"id": f"{req['id']}|{be}", "compile": f"{kind}: the process died ({(crash or {}).get('stderr', '')[-120:]})",
-                                "nout": 0, "run": []})
-                meta[f"{req['id']}|{be}"] = (case, key)
-            continue
-        for r_ in to_records(req["id"], out):
-            records.append(r_)
-            meta[r_["id"]] = (case, key)
-    fails = validate(chk, records)
-    for rid, f in fails.items():
-        case, key = meta[rid]
-        be = rid.rsplit("|", 1)[1]
-        k2 = vlib.canon_key(case["src"])
-        if be == "wasm" and k2 in pins and pins[k2].get("vm_too"):
-            continue
-        what = pins[k2]["what"] if k2 in pins else f"{be}: {case['name']}: {f['what']} (sample {f['at']})\n{case['src'][:900]}"
-        chk.violation(what, dict(case, backend=be), key=k2)
+    nrecords = 0
+    SLICE = 6000          # requests per slice: records of a slice are validated and dropped (memory stays bounded)
+    for lo in range(0, len(reqs), SLICE):
+        res = vlib.run_harness("run", reqs[lo:lo + SLICE], timeout_per_req=30, chunk=40)
+        records, meta = [], {}
+        for req, out, crash in res:
+            key = vlib.canon_key(req["src"])
+            case = {"src": req["src"], "name": req["id"]}
+            if crash or out is None:
+                kind = "timeout" if crash and crash.get("timeout") else "abort"
+                for be in ("vm", "wasm"):
+                    records.append({"id": f"{req['id']}|{be}", "compile": f"{kind}: the process died ({(crash or {}).get('stderr', '')[-120:]})",
+                                    "nout": 0, "run": []})
+                    meta[f"{req['id']}|{be}"] = (case, key)
+                continue
+            for r_ in to_records(req["id"], out):
+                records.append(r_)
+                meta[r_["id"]] = (case, key)
+        del res
+        nrecords += len(records)
+        fails = validate(chk, records)
+        for rid, f in fails.items():
+            case, key = meta[rid]
+            be = rid.rsplit("|", 1)[1]
+            k2 = vlib.canon_key(case["src"])
+            if be == "wasm" and k2 in pins and pins[k2].get("vm_too"):
+                continue
+            what = pins[k2]["what"] if k2 in pins else f"{be}: {case['name']}: {f['what']} (sample {f['at']})\n{case['src'][:900]}"
+            chk.violation(what, dict(case, backend=be), key=k2)
+        del records, meta
     chk.cov["programs"] = len(uniq)
     chk.cov["mutants"] = nmut
-    chk.cov["evaluations"] = len(records)
+    chk.cov["evaluations"] = nrecords
     chk.cov["distinct_nontrivial"] = len(uniq)
     chk.cov["rule"] = ("LangGen programs (TLC, exhaustive per budget), type-changing mutants of them (deterministic), shipped sources; "
                        f"{n} samples each on both back ends; distinct = distinct source text")
